@@ -212,12 +212,19 @@ def raw_family(res, tier, rnd):
     if not okb:
         raise C.Fail("harness build failed (does /repo still compile with -tags verif?):\n" + out[-3000:])
     scs, metas = [], []
-    for i in range(10 if tier == "quick" else 120):
-        kind = ["raw-send", "raw-from-cmd", "raw-nested", "stored", "equal-results"][i % 5]
+    for i in range(12 if tier == "quick" else 120):
+        kind = ["raw-send", "raw-from-cmd", "raw-nested", "stored", "equal-results", "blocked-in-sequence"][i % 6]
         ids = [200 + 10 * i + k for k in range(rnd.choice([2, 3, 5]))]
         leaves = [P.cmd(j, ret=P.U(6000 + j)) for j in ids]
         upd, script, times = {}, [P.W("started"), P.W("idle")], 1
-        if kind == "equal-results":
+        if kind == "blocked-in-sequence":
+            # a batch that is an element of a Sequence: 40 members never return, the one behind them must still run and deliver
+            blocked = [P.cmd(3000 + k, block="forever") for k in range(40)]
+            leaves = [P.cmd(j, ret=P.U(6000 + j)) for j in ids[:1]]
+            ids = ids[:1]
+            upd["u:1"] = {"cmd": {"id": 0, "seq": [{"id": 0, "batch": blocked + leaves}]}}
+            script += [P.DO("send", msg=P.U(1))]
+        elif kind == "equal-results":
             # several commands whose results are equal values of a built-in or unusual type: one delivery each
             val = [P.B("windowsizemsg", w=80, h=24), P.B("errmsg", w=3), P.B("tn-slice"), P.B("focus")][(i // 5) % 4]
             leaves = [P.cmd(j, ret=dict(val)) for j in ids]
@@ -342,7 +349,7 @@ def run(res, tier, seed):
 def tie_batch(res):
     pre = ("From Coq Require Import List Bool String.\nImport ListNotations.\nOpen Scope string_scope.\nFrom BT Require Model.GenTypes Model.SkelTie.\nFrom BTGen Require Signals ChanOps.\n")
     body = ['Definition init_forwarded := forallb (fun c => negb (fst c =? "Run")) ChanOps.send_calls && existsb (fun o => (GenTypes.co_func o =? "Run") && (GenTypes.co_chan o =? "cmds")) ChanOps.chanops.',
-            'Definition t := (init_forwarded, SkelTie.shapes_ok_for ["Batch"], SkelTie.shapes_ok_for ["handleCommands"], SkelTie.shapes_ok_for ["eventLoop:BatchMsg"]).']
+            'Definition t := (init_forwarded, SkelTie.shapes_ok_for ["Batch"], SkelTie.shapes_ok_for ["handleCommands"], SkelTie.shapes_ok_for ["eventLoop:BatchMsg"; "eventLoop:sequenceMsg"]).']
     vals, _ = C.coq_eval("cases_C02_tie", pre, body, ["t"], timeout=300)
     flags = [x == "true" for x in __import__("re").findall(r'true|false', vals["t"])]
     ok = all(flags) and len(flags) == 4
